@@ -6,7 +6,7 @@ LEVEL = "model_checking"
 MANIFEST = {
     "engine": "tlc FetchGen + Negotiate, vhnet c36, vsrv, git daemon",
     "technique": "TLC enumerates fetch scenarios (commit graph, server heads/tag, prior client state empty/partial/shallow/diverged, refspec, tag mode, depth) with the client post-state (tracking refs, tags, shallow set) computed by the TLA+ Fetch action; a seeded sample is realised with git fast-import and run through go-git->go-git (file transport), git->go-git (vsrv, protocol v0 and v2), go-git->git (git daemon, v0/v2) after git->git confirmed the specification; refs, .git/shallow and git fsck --connectivity-only are compared; Negotiate.tla (want/have/ACK/NAK/done exchange) is model-checked for deadlock freedom and done => pack covers the needed commits",
-    "text": "TLC: every scenario over 8 five-commit graphs (chain, diamond, criss-cross, two roots, unequal sides) (thorough: plus all 56 four-commit graphs) x heads x tag kinds x 13 prior states x 2 refspecs x 3 tag modes x depths 0-2; theorems: post-state connected up to its shallow boundary, full closure, refs mapped, followed tag inside. Replay: seeded sample of scenarios (quick ~70 in-process + 2 through all pairings; thorough ~1200 + 40).",
+    "text": "TLC: every scenario over 8 five-commit graphs (chain, diamond, criss-cross, two roots, unequal sides) (thorough: plus all 56 four-commit graphs) x heads x tag kinds x 13 prior states x 2 refspecs x 3 tag modes x depths 0-2; theorems: post-state connected up to its shallow boundary, full closure, refs mapped, followed tag inside. Replay: seeded sample of scenarios (quick ~70 in-process + 2 through all pairings; thorough ~900 + 30).",
     "note": "Replay is a sample, not exhaustive (every pairing costs ~50 git processes per scenario); http(s) and ssh transports, prune, filters, deepen of an already shallow client and long have-lists crossing the flush windows are not generated; the pkt-line transcript is not validated against Negotiate (model half only).",
 }
 
@@ -57,7 +57,7 @@ def run(ctx):
         k = (("empty" if p["px"] == 0 else "shallow1x2" if p.get("pb") else "shallow%d" % p["d1"] if p["d1"] else "diverged" if p["local"] else "partial"),
              s["scn"]["depth"], s["scn"]["tags"] if not p.get("pb") else s["scn"]["refspec"] + ("/same-tip" if p["px"] == len(s["scn"]["dag"]) else ""))
         strata.setdefault(k, []).append(s)
-    want = 1200 if ctx.thorough else 70
+    want = 900 if ctx.thorough else 70
     picked = []
     while len(picked) < want and any(strata.values()):
         for k in sorted(strata):
@@ -102,7 +102,7 @@ def run(ctx):
     ctx.cov["rule"] = ("TLC enumerates every scenario of the bounded domain (one state each) and checks the specification theorems on all of them; "
                        "the replay takes a seeded sample stratified by (prior state, depth, tag mode); distinct = distinct (scenario, pairing); "
                        "non-trivial = a real fetch transferring at least one commit, verified by refs + shallow + connectivity")
-    ctx.vh("c36", [sp, vsrv] + ([len(picked), 40] if ctx.thorough else [len(picked), 2]), pkg="vhnet", timeout=3400)
+    ctx.vh("c36", [sp, vsrv] + ([len(picked), 30] if ctx.thorough else [len(picked), 2]), pkg="vhnet", timeout=3400)
     ctx.assumptions += [
         "git 2.39.5 -> git 2.39.5 on the same scenario is the witness for the specification (spec error if it disagrees)",
         "commit symbols are real commits built by git fast-import; an annotated tag is a real tag object",
